@@ -157,6 +157,64 @@ func patchEtcd(etcdDir, out string, replace map[string]string) {
 	}
 }
 
+func addImport(f *ast.File, name, path string) {
+	for _, d := range f.Decls {
+		gd, ok := d.(*ast.GenDecl)
+		if ok && gd.Tok == token.IMPORT {
+			gd.Specs = append(gd.Specs, &ast.ImportSpec{Name: ast.NewIdent(name), Path: &ast.BasicLit{Kind: token.STRING, Value: strconv.Quote(path)}})
+			if !gd.Lparen.IsValid() {
+				gd.Lparen = gd.Pos()
+				gd.Rparen = gd.End()
+			}
+			return
+		}
+	}
+}
+
+// rewriteGo turns `go f(a, b)` into `{ _f := f; _a0 := a; _a1 := b; vsched.Go(func() { _f(_a0, _a1) }) }`
+// (function value and arguments are still evaluated at the go statement).
+func rewriteGo(f *ast.File) int {
+	n := 0
+	var fix func(list []ast.Stmt)
+	fix = func(list []ast.Stmt) {
+		for i, st := range list {
+			gs, ok := st.(*ast.GoStmt)
+			if !ok {
+				continue
+			}
+			n++
+			call := gs.Call
+			var pre []ast.Stmt
+			fun := call.Fun
+			// method values / function literals / identifiers: bind the function value
+			fn := ast.NewIdent(fmt.Sprintf("_vgo_f%d", n))
+			pre = append(pre, &ast.AssignStmt{Lhs: []ast.Expr{fn}, Tok: token.DEFINE, Rhs: []ast.Expr{fun}})
+			var args []ast.Expr
+			for k, a := range call.Args {
+				id := ast.NewIdent(fmt.Sprintf("_vgo_a%d_%d", n, k))
+				pre = append(pre, &ast.AssignStmt{Lhs: []ast.Expr{id}, Tok: token.DEFINE, Rhs: []ast.Expr{a}})
+				args = append(args, id)
+			}
+			inner := &ast.CallExpr{Fun: fn, Args: args, Ellipsis: call.Ellipsis}
+			lit := &ast.FuncLit{Type: &ast.FuncType{Params: &ast.FieldList{}}, Body: &ast.BlockStmt{List: []ast.Stmt{&ast.ExprStmt{X: inner}}}}
+			goCall := &ast.ExprStmt{X: &ast.CallExpr{Fun: &ast.SelectorExpr{X: ast.NewIdent("vsched"), Sel: ast.NewIdent("Go")}, Args: []ast.Expr{lit}}}
+			list[i] = &ast.BlockStmt{List: append(pre, goCall)}
+		}
+	}
+	ast.Inspect(f, func(nd ast.Node) bool {
+		switch b := nd.(type) {
+		case *ast.BlockStmt:
+			fix(b.List)
+		case *ast.CaseClause:
+			fix(b.Body)
+		case *ast.CommClause:
+			fix(b.Body)
+		}
+		return true
+	})
+	return n
+}
+
 var timeSel = map[string]bool{"Now": true, "Since": true, "Until": true, "Sleep": true}
 
 func rewriteFile(path, flags string) ([]byte, bool) {
@@ -221,6 +279,13 @@ func rewriteFile(path, flags string) ([]byte, bool) {
 				Names: []*ast.Ident{ast.NewIdent("_")},
 				Type:  &ast.SelectorExpr{X: ast.NewIdent("time"), Sel: ast.NewIdent("Duration")},
 			}}})
+		}
+	}
+	if strings.Contains(flags, "g") {
+		n := rewriteGo(f)
+		if n > 0 {
+			changed = true
+			addImport(f, "vsched", shimBase+"sched")
 		}
 	}
 	if !changed {
